@@ -203,7 +203,9 @@ impl Value {
 		int: &I,
 	) -> FResult<Self> {
 		if rhs.is_zero(int)? {
-			return Ok(self);
+			// adding an approximate zero still makes the result approximate
+			let exact = self.exact && rhs.exact;
+			return Ok(Self { exact, ..self });
 		}
 		let scale_factor =
 			Unit::compute_scale_factor(&rhs.unit, &self.unit, decimal_separator, int)?;
